@@ -88,6 +88,16 @@ InitParams3 ==
       h \in {2, 8}, hd \in Heads3, s \in 0..3,
       t \in {u \in P3Pool \X P3Pool \X P3Pool : u[1] # u[2] /\ u[1] # u[3] /\ u[2] # u[3]}}
 
+\* ---- slice "carry": a parameter WITH a value followed by one WITHOUT (missing / empty): nothing carries over.
+\* first: every "other" name (1..13 characters) and the known names; second: the known names and an other one
+CarryFirst  == {9, 10, 11, 15, 16, 17, 18, 19, 20, 21, 22, 23, 1, 3, 5, 7}
+CarrySecond == {1, 3, 5, 7, 12, 13, 14, 9}
+InitCarry ==
+  \/ c \in {<<"na", h, 0, 0, <<hd, <<P0(n1, v1), P0(n2, v2)>>>>>> :
+            h \in {1, 2, 8, 13}, hd \in Heads3, n1 \in CarryFirst, v1 \in {3, 4, 5, 7, 12}, n2 \in CarrySecond, v2 \in {1, 2}}
+  \/ c \in {<<"na", h, 0, 0, <<hd, <<P0(n1, v1), P0(n0, 1), P0(n2, v2)>>>>>> :
+            h \in {2, 8}, hd \in {HdSip, HdBare}, n1 \in {16, 21, 22, 23, 9}, v1 \in {3, 4, 7}, n0 \in {9, 20, 21}, n2 \in {1, 3, 5, 7}, v2 \in {1, 2}}
+
 \* ---- value pool of the list slices (lazy)
 LV(i) ==
   CASE i = 1 -> <<HdSip, <<>>>>                                                 \* <sip:bob@b.example>
@@ -179,6 +189,7 @@ InitInMsg ==
 Init == \/ (Part = "single" /\ InitSingle)
         \/ (Part = "lws" /\ InitLws)
         \/ (Part = "params3" /\ InitParams3)
+        \/ (Part = "carry" /\ InitCarry)
         \/ (Part = "lists" /\ InitLists)
         \/ (Part = "listsws" /\ InitListsWs)
         \/ (Part = "inmsg" /\ InitInMsg)
